@@ -172,7 +172,7 @@ def plan(tier, seed):
     for g, k in Ks.items():
         for lexer in ('basic', 'contextual'):
             for by in ((False, True) if g in ('ab', 'nullable') and (not quick or lexer == 'basic') else (False,)):
-                Lg = (2 if k > 8 else 3) if quick else (4 if k > 8 else 5)
+                Lg = (2 if k > 8 else 3) if quick else (3 if k > 8 else 4)
                 n = sum((k ** i) * (1 + (i + 1) * (i + 2) // 2) for i in range(Lg + 1))
                 pins = [None] if n * 0.05 < (90 if quick else 1500) else list(range(k))
                 for pin in pins:
@@ -183,7 +183,7 @@ def plan(tier, seed):
     # longer whole texts (no windows): over-reads that cross a newline before failing need 4-5 characters
     for g in (('nested', 'overlap') if quick else ('nested', 'overlap', 'nullable')):
         k = Ks[g]
-        Lw = 4 if quick else 6
+        Lw = 4 if quick else 5
         for pin in range(k):
             slices.append({'id': '%s:contextual:str:L%d:whole:pin%d' % (g, Lw, pin), 'mode': 'realised',
                            'params': {'g': g, 'lexer': 'contextual', 'bytes': False, 'L': Lw, 'pin': pin, 'windows': False}, 'timeout': 600 if quick else 3000,
